@@ -54,7 +54,7 @@ only after it has been told that the other direction is over) —, all endpoint 
 (any interleaving of the two goroutines, Writes that stay in progress on a slow sink) followed by the
 completion of the run: the relay returns, each side has received a prefix of the other side's bytes in
 order, and all of them unless that side itself refused a Write. Hypothesis `TcpWF`: a passive peer can be
-told (its object implements `CloseWrite`) and not both peers are passive. In particular: when one side
+told (its object forwards a half-close: `tryCloseWrite kind`) and not both peers are passive. In particular: when one side
 FAILS while the other is passive, the relay still signals the end to the passive side and returns. -/
 theorem C12_tcp (A B : EP) (hwf : TcpWF A B) (σ : List TTok) :
     holdsTcp A B (tcpObs A B (tcpRun A B (tcpComplete A B σ))) = true :=
@@ -97,12 +97,12 @@ theorem C12_tcp_reverse_continues (A B : EP) (s : TcpSt) (c : Bytes) (cs : List 
   split <;> rfl
 
 /-- **What `tryCloseWrite` does, per kind**: a half-close reaches socket B exactly when A→B has finished and
-B implements `CloseWrite`; for the wrapper kinds (`same`: reader and writer are the same transport conn, as all
+B implements `CloseWrite` (directly, or as a wrapper built with a `closeWriteFunc`); for the wrapper kinds (`same`: reader and writer are the same transport conn, as all
 production callers build the tunnel side; `split`; `none`) nothing reaches the transport — the peer sees the end
 of that direction only at the final `Close`, which is issued only after BOTH directions have finished. -/
 theorem C12_tcp_halfclose_by_kind (A B : EP) (σ : List TTok) :
-    ((tcpObs A B (tcpRun A B σ)).cwB = true ↔ (tcpRun A B σ).ab.done = true ∧ B.kind = .cw) ∧
-    ((tcpObs A B (tcpRun A B σ)).cwA = true ↔ (tcpRun A B σ).ba.done = true ∧ A.kind = .cw) ∧
+    ((tcpObs A B (tcpRun A B σ)).cwB = true ↔ (tcpRun A B σ).ab.done = true ∧ (B.kind = .cw ∨ B.kind = .wcw)) ∧
+    ((tcpObs A B (tcpRun A B σ)).cwA = true ↔ (tcpRun A B σ).ba.done = true ∧ (A.kind = .cw ∨ A.kind = .wcw)) ∧
     ((tcpObs A B (tcpRun A B σ)).closed = true ↔ (tcpRun A B σ).ab.done = true ∧ (tcpRun A B σ).ba.done = true) := by
   refine ⟨?_, ?_, by simp [tcpObs, TcpSt.returned]⟩
   · cases hk : B.kind <;> simp [tcpObs, tryCloseWrite, hk]
@@ -167,31 +167,35 @@ theorem C12_udp_cut (ds : List Bytes) (hwf : ds.all wfDgram = true) (cut : Nat) 
   drainAll_cut ds hwf cut
 
 /-- **Termination, everywhere**: for every tunnel stream content (valid, cut anywhere, hostile), every
-chunking, every ending of either side and every schedule, the repaired relay returns, and what it
-wrote to the UDP socket is the parse of the flattened stream — independent of the chunking. The only
+chunking, every ending of either side, a UDP socket refusing a Write, and every schedule, the repaired relay
+returns, and what it wrote to the UDP socket is the parse of the flattened stream — independent of the
+chunking (a prefix of it if the socket refused a Write). The only
 hypothesis: not both sides stay silent forever. -/
 theorem C12_udp_terminates (c : UdpCase) (hwf : ¬ (c.utail = .hold ∧ c.ttail = .hold)) (σ : List UTok) :
     (udpRun .repaired c (udpComplete c σ)).returned = true ∧
-    (udpRun .repaired c (udpComplete c σ)).dec.out = (drainAll c.tchunks.flatten).pk := by
+    ((udpRun .repaired c (udpComplete c σ)).dec.stop ≠ .werr →
+      (udpRun .repaired c (udpComplete c σ)).dec.out = (drainAll c.tchunks.flatten).pk) ∧
+    (udpRun .repaired c (udpComplete c σ)).dec.out <+: (drainAll c.tchunks.flatten).pk := by
   have h := udp_returned c hwf σ
   have hd : (udpRun .repaired c (udpComplete c σ)).dec.done = true := by
     have := h.1; simp only [UdpSt.returned, Bool.and_eq_true] at this; exact this.2
-  exact ⟨h.1, (h.2.1.dec.fin ((Dec.done_iff _).mp hd)).symm⟩
+  exact ⟨h.1, fun hnw => (h.2.1.dec.fin ((Dec.done_iff _).mp hd) hnw).symm, decInv_out_prefix _ _ h.2.1.dec⟩
 
 /-- **Main UDP theorem.** For all datagram/tick sequences on the UDP side (the flush schedule), all
 tunnel streams that are the encoding of well-formed datagrams cut at ANY offset (or followed by
 arbitrary bytes), all chunkings of that stream, all endings (EOF / error / blocked until closed, error
-fused with the last chunk) and all schedules of the two goroutines — including flush Writes that stay in
+fused with the last chunk), a UDP socket that refuses a Write at any index `uw` (then a prefix arrives and the
+relay still returns) and all schedules of the two goroutines — including flush Writes that stay in
 progress on a slow tunnel while datagrams arrive and further flushes are triggered, and slow Writes on the
 UDP socket —: the relay returns, the UDP side got
 exactly the datagrams complete before the cut, the tunnel got exactly the encoding of the datagrams
 read from the UDP socket (ticks change nothing), all of them if the tunnel stays up. -/
-theorem C12_udp (sc : UdpSpecCase) (chunks : List Bytes) (hflat : chunks.flatten = sc.stream)
+theorem C12_udp (sc : UdpSpecCase) (chunks : List Bytes) (uw : Option Nat) (hflat : chunks.flatten = sc.stream)
     (hwf : ¬ (sc.utail = .hold ∧ sc.ttail = .hold)) (σ : List UTok) :
-    holdsUdp sc (udpObs (udpRun .repaired ⟨sc.uevs, sc.utail, chunks, sc.ttail, sc.tfused⟩
-      (udpComplete ⟨sc.uevs, sc.utail, chunks, sc.ttail, sc.tfused⟩ σ))) = true := by
-  have h := udp_returned ⟨sc.uevs, sc.utail, chunks, sc.ttail, sc.tfused⟩ hwf σ
-  exact holdsUdp_of sc chunks hflat _ h.2.1 h.1
+    holdsUdp sc (udpObs (udpRun .repaired ⟨sc.uevs, sc.utail, chunks, sc.ttail, sc.tfused, uw⟩
+      (udpComplete ⟨sc.uevs, sc.utail, chunks, sc.ttail, sc.tfused, uw⟩ σ))) = true := by
+  have h := udp_returned ⟨sc.uevs, sc.utail, chunks, sc.ttail, sc.tfused, uw⟩ hwf σ
+  exact holdsUdp_of sc chunks uw hflat _ h.2.1 h.1
 
 /-- **Asynchronous local socket** (`mapping.UDPVirtualConn`, the `localConn` that `tunnel.runDataCopy` hands to
 `iocopy.UDP`): its `Write` queues a private copy and a send loop delivers it later. For all the inputs of
@@ -200,10 +204,10 @@ and buffer compactions (tokens `s`), the local application receives exactly the 
 cut — same boundaries, contents, order. -/
 theorem C12_udp_async_socket (sc : UdpSpecCase) (chunks : List Bytes) (hflat : chunks.flatten = sc.stream)
     (hwf : ¬ (sc.utail = .hold ∧ sc.ttail = .hold)) (σ : List UTok) :
-    holdsUdp sc (udpObsV (udpRun .repaired ⟨sc.uevs, sc.utail, chunks, sc.ttail, sc.tfused⟩
-      (udpComplete ⟨sc.uevs, sc.utail, chunks, sc.ttail, sc.tfused⟩ σ))) = true := by
-  have h := udp_returned ⟨sc.uevs, sc.utail, chunks, sc.ttail, sc.tfused⟩ hwf σ
-  exact holdsUdpV_of sc chunks hflat _ h.2.1 h.1 h.2.2
+    holdsUdp sc (udpObsV (udpRun .repaired ⟨sc.uevs, sc.utail, chunks, sc.ttail, sc.tfused, none⟩
+      (udpComplete ⟨sc.uevs, sc.utail, chunks, sc.ttail, sc.tfused, none⟩ σ))) = true := by
+  have h := udp_returned ⟨sc.uevs, sc.utail, chunks, sc.ttail, sc.tfused, none⟩ hwf σ
+  exact holdsUdpV_of sc chunks none hflat _ h.2.1 h.1 h.2.2
 
 /-- What has been sent is, at every moment of every run, a prefix of what the relay wrote, unaffected by
 anything the relay does to its read buffer afterwards: sends never change `dec.out`, the relay never changes
@@ -346,20 +350,26 @@ theorem C12_s5_roundtrip (ds : List Bytes) (hwf : ds.all wfS5 = true) (chunks : 
     have : 2 + d.length + (encodeAll ds).length - (2 + d.length) = (encodeAll ds).length := by omega
     rw [this]; exact ih hds
 
+/-- What the driver executes (`tcpRunFast` / `udpRunFast`: completion phases cut short as soon as a step changes
+nothing) is exactly the run the theorems above speak about. -/
+theorem C12_driver_runs_the_model (A B : EP) (σ : List TTok) (v : Variant) (c : UdpCase) (τ : List UTok) :
+    tcpRunFast A B σ = tcpRun A B (tcpComplete A B σ) ∧ udpRunFast v c τ = udpRun v c (udpComplete c τ) :=
+  ⟨tcpRunFast_eq A B σ, udpRunFast_eq v c τ⟩
+
 /-! ## The two defects of the code as found (repaired in the worktree; kept as witnesses) -/
 
 /-- C12-a as found: the tunnel ends inside a record (`00 05 'a' 'b'`, then EOF) — the loop re-reads
 EOF forever; under the same schedule the repaired loop returns. -/
 theorem C12_udp_asFound_spin_witness :
-    (udpRun .asFound ⟨[], .eof, [[0, 5, 97, 98]], .eof, false⟩ (udpComplete ⟨[], .eof, [[0, 5, 97, 98]], .eof, false⟩ [])).returned = false ∧
-    (udpRun .repaired ⟨[], .eof, [[0, 5, 97, 98]], .eof, false⟩ (udpComplete ⟨[], .eof, [[0, 5, 97, 98]], .eof, false⟩ [])).returned = true := by
+    (udpRun .asFound ⟨[], .eof, [[0, 5, 97, 98]], .eof, false, none⟩ (udpComplete ⟨[], .eof, [[0, 5, 97, 98]], .eof, false, none⟩ [])).returned = false ∧
+    (udpRun .repaired ⟨[], .eof, [[0, 5, 97, 98]], .eof, false, none⟩ (udpComplete ⟨[], .eof, [[0, 5, 97, 98]], .eof, false, none⟩ [])).returned = true := by
   decide
 
 /-- C12-b as found: the tunnel ends at a record boundary while the UDP socket is silent — the
 UDP→tunnel goroutine stays blocked in Read and `UDP` never returns. -/
 theorem C12_udp_asFound_hang_witness :
-    (udpRun .asFound ⟨[], .hold, [[0, 2, 97, 98]], .eof, false⟩ (udpComplete ⟨[], .hold, [[0, 2, 97, 98]], .eof, false⟩ [])).returned = false ∧
-    (udpObs (udpRun .repaired ⟨[], .hold, [[0, 2, 97, 98]], .eof, false⟩ (udpComplete ⟨[], .hold, [[0, 2, 97, 98]], .eof, false⟩ []))).udp = [[97, 98]] := by
+    (udpRun .asFound ⟨[], .hold, [[0, 2, 97, 98]], .eof, false, none⟩ (udpComplete ⟨[], .hold, [[0, 2, 97, 98]], .eof, false, none⟩ [])).returned = false ∧
+    (udpObs (udpRun .repaired ⟨[], .hold, [[0, 2, 97, 98]], .eof, false, none⟩ (udpComplete ⟨[], .hold, [[0, 2, 97, 98]], .eof, false, none⟩ []))).udp = [[97, 98]] := by
   decide
 
 /-! ## Non-vacuity -/
@@ -371,8 +381,8 @@ next datagram arrives. -/
 example :
     let sc : UdpSpecCase := ⟨[.dgram [1, 2], .tick, .dgram [3]], .hold, [[97], [98, 99]], 4, [], .err, true⟩
     [[0, 1], [97], [0]].flatten = sc.stream ∧ ¬ (sc.utail = .hold ∧ sc.ttail = .hold) ∧
-    (udpObs (udpRun .repaired ⟨sc.uevs, sc.utail, [[0, 1], [97], [0]], sc.ttail, sc.tfused⟩
-      (udpComplete ⟨sc.uevs, sc.utail, [[0, 1], [97], [0]], sc.ttail, sc.tfused⟩ [.u, .t, .uh, .t, .u, .w]))).udp = [[97]] := by
+    (udpObs (udpRun .repaired ⟨sc.uevs, sc.utail, [[0, 1], [97], [0]], sc.ttail, sc.tfused, none⟩
+      (udpComplete ⟨sc.uevs, sc.utail, [[0, 1], [97], [0]], sc.ttail, sc.tfused, none⟩ [.u, .t, .uh, .t, .u, .w]))).udp = [[97]] := by
   decide
 
 example : wfDgram [7] = true ∧ [[7], [8, 9]].all wfDgram = true ∧ completeBefore [[7], [8, 9]] 6 = [[7]] := by decide
@@ -415,11 +425,17 @@ example :
 /-- Asynchronous socket: the first read ends inside the second record (so the window is compacted over the bytes
 just handed to `Write`), the sends happen only after the next read: both datagrams arrive intact. -/
 example :
-    (udpObsV (udpRun .repaired ⟨[], .hold, [[0, 1, 65, 0, 2, 66], [67]], .eof, false⟩
-      (udpComplete ⟨[], .hold, [[0, 1, 65, 0, 2, 66], [67]], .eof, false⟩ [.t, .t, .s, .s]))).udp = [[65], [66, 67]] ∧
-    (udpObsV (udpRun .repaired ⟨[], .hold, [[0, 1, 65, 0, 2, 66], [67]], .eof, false⟩ [.t, .t, .s])).udp = [[65]] := by decide
+    (udpObsV (udpRun .repaired ⟨[], .hold, [[0, 1, 65, 0, 2, 66], [67]], .eof, false, none⟩
+      (udpComplete ⟨[], .hold, [[0, 1, 65, 0, 2, 66], [67]], .eof, false, none⟩ [.t, .t, .s, .s]))).udp = [[65], [66, 67]] ∧
+    (udpObsV (udpRun .repaired ⟨[], .hold, [[0, 1, 65, 0, 2, 66], [67]], .eof, false, none⟩ [.t, .t, .s])).udp = [[65]] := by decide
+
+/-- The UDP socket refuses its second Write: the first datagram has arrived, the error is reported, the relay returns. -/
+example :
+    (udpObs (udpRun .repaired ⟨[], .hold, [[0, 1, 65, 0, 1, 66, 0, 1, 67]], .eof, false, some 1⟩
+      (udpComplete ⟨[], .hold, [[0, 1, 65, 0, 1, 66, 0, 1, 67]], .eof, false, some 1⟩ []))) =
+      ⟨true, [], [[65]], 0, true, false, true, 0, 1⟩ := by decide
 
 /-- `holdsUdp` is not trivially true: a relay that dropped the datagram before the cut fails it. -/
-example : holdsUdp ⟨[], .hold, [[97]], 3, [], .eof, false⟩ ⟨true, [], [], 0, false, false, 0, 0⟩ = false := by decide
+example : holdsUdp ⟨[], .hold, [[97]], 3, [], .eof, false⟩ ⟨true, [], [], 0, false, false, false, 0, 0⟩ = false := by decide
 
 end Tunnox.C12
